@@ -269,6 +269,13 @@ DECL = [
     V("integer, public, parameter :: npub = 3", one=True, proc=False),                                                  # 85
     V("real, private, save :: rprv(2)", one=True, proc=False),
     V("integer, public :: ipub = 1, jpub", one=True, proc=False),
+    V("character :: chl*(n + 1) = \"abc\", chm(2)*(f(2, 3)) = 'de'", one=True, blk=True),                              # 88
+    V("character(kind=kf(1), len=lf(2, 3)) :: ckl", blk=True),
+    V("character(lf(2, 3), kind=kf(1)) :: clk", blk=True),                                                               # 90
+    V("character(lf(2, 3), kf(1)) :: cpos", blk=True),
+    V("character(kind=kf(1)) :: ck1", blk=True),
+    V("integer(kind=kf(2, 3)) :: ikf", blk=True),
+    V("real(kf((2), 3)) :: rkf", one=True, blk=True),
 ]
 
 USE = [
@@ -311,6 +318,8 @@ COMP = [
     V("real, contiguous, pointer :: cp2(:)", std=8),                                                                     # 13
     V("procedure(iface), pointer, pass(self) :: fp2"),
     V("integer :: cnt(18) = (/ 1, 2, 1, 2, 3, 1, 2, 1, 2, 3, 1, 2, 1, 2, 3, 1, 2, 9 /)"),
+    V("character(len=lf(2, 3)) :: cmpn*(n + 1) = 'q r'"),
+    V("character(kind=kf(1), len=lf(2, 3)) :: cmpk"),
 ]
 TBIND = [
     V("procedure :: m1"),                                                             # 1
